@@ -112,7 +112,7 @@ func LoadWorld(repo string, specDirs []string) (*World, error) {
 	}
 	w.findInitNonNil()
 	// specs
-	w.heapSorts[heapAlloc] = "(Array Ref Bool)"
+	w.heapSorts[heapAlloc] = "Int" // allocation clock: r is allocated iff birth(r) < now
 	w.specs = NewSpecs()
 	for _, d := range specDirs {
 		var files []string
